@@ -708,3 +708,509 @@ pub fn shard_c06(tier: &str, seed: u64, shard: u32, cases: u32, exclude: &BTreeS
     let _ = std::fs::remove_dir_all(&base);
     o
 }
+
+// ------------------------------------------------------------------ C14: linearizability of single operations
+
+#[derive(Clone, Debug, Serialize, Deserialize, PartialEq, Eq)]
+pub enum LinOp {
+    /// write value id (0 = remove)
+    W(u64),
+    /// get -> observed value id (0 = absent)
+    R(u64),
+    /// contains_key -> bool
+    C(bool),
+}
+
+#[derive(Clone, Debug, Serialize, Deserialize)]
+pub struct LinEv {
+    pub thread: usize,
+    pub key: usize,
+    pub call: u64,
+    pub ret: u64,
+    pub op: LinOp,
+}
+
+#[derive(Clone, Debug, Serialize, Deserialize)]
+pub struct LinHistory {
+    pub keys: usize,
+    pub events: Vec<LinEv>,
+    /// final value id per key (read after all threads joined)
+    pub fin: Vec<u64>,
+    pub flushes: u64,
+}
+
+/// Wing-Gong search for one register
+fn lin_key(evs: &[&LinEv], fin: u64) -> Result<(), String> {
+    let n = evs.len();
+    if n > 40 {
+        return Err("INCONCLUSIVE: too many operations on one key".into());
+    }
+    let mut memo: std::collections::HashSet<(u64, u64)> = std::collections::HashSet::new();
+    fn go(evs: &[&LinEv], placed: u64, val: u64, fin: u64, memo: &mut std::collections::HashSet<(u64, u64)>, budget: &mut u64) -> Option<bool> {
+        let n = evs.len();
+        if placed == (1u64 << n) - 1 {
+            return Some(val == fin);
+        }
+        if !memo.insert((placed, val)) {
+            return Some(false);
+        }
+        if *budget == 0 {
+            return None;
+        }
+        *budget -= 1;
+        // minimal return time among unplaced operations: an op can go next only if it was called before that
+        let min_ret = (0..n).filter(|i| placed & (1 << i) == 0).map(|i| evs[i].ret).min().unwrap();
+        for i in 0..n {
+            if placed & (1 << i) != 0 || evs[i].call > min_ret {
+                continue;
+            }
+            let (ok, nv) = match &evs[i].op {
+                LinOp::W(v) => (true, *v),
+                LinOp::R(v) => (*v == val, val),
+                LinOp::C(b) => (*b == (val != 0), val),
+            };
+            if ok {
+                match go(evs, placed | (1 << i), nv, fin, memo, budget) {
+                    Some(true) => return Some(true),
+                    None => return None,
+                    Some(false) => {}
+                }
+            }
+        }
+        Some(false)
+    }
+    let mut budget = 2_000_000u64;
+    match go(evs, 0, 0, fin, &mut memo, &mut budget) {
+        Some(true) => Ok(()),
+        Some(false) => Err("not linearizable".into()),
+        None => Err("INCONCLUSIVE: search budget exhausted".into()),
+    }
+}
+
+pub fn check_lin_history(v: &serde_json::Value) -> Result<(), String> {
+    let h: LinHistory = serde_json::from_value(v.clone()).map_err(|e| format!("unreadable history: {e}"))?;
+    for k in 0..h.keys {
+        let evs: Vec<&LinEv> = h.events.iter().filter(|e| e.key == k).collect();
+        match lin_key(&evs, h.fin[k]) {
+            Ok(()) => {}
+            Err(e) if e.starts_with("INCONCLUSIVE") => return Err(e),
+            Err(_) => {
+                let mut s = format!("operations on key {k} are not linearizable (no order consistent with real time explains all results and the final value id {}): ", h.fin[k]);
+                let mut es = evs.clone();
+                es.sort_by_key(|e| e.call);
+                for e in es.iter().take(40) {
+                    s.push_str(&format!("[t{} {}..{} {:?}] ", e.thread, e.call, e.ret, e.op));
+                }
+                return Err(s);
+            }
+        }
+    }
+    Ok(())
+}
+
+#[derive(Clone, Debug, Serialize, Deserialize)]
+pub struct LinParams {
+    pub threads: usize,
+    pub hot_keys: usize,
+    pub ops_per_thread: usize,
+    pub workers: usize,
+    pub memtable: u64,
+    pub blob: bool,
+    pub delay_seed: u64,
+    pub seed: u64,
+}
+
+pub fn run_lin_history(dir: &Path, p: &LinParams) -> Result<LinHistory, String> {
+    use fjall::{Database, KeyspaceCreateOptions};
+    let _ = std::fs::remove_dir_all(dir);
+    fjall::verif::JOURNAL_POS_SCALE.store(64_000, Ordering::SeqCst);
+    let db = Database::builder(dir).worker_threads(p.workers.max(1)).open().map_err(|e| format!("open: {e:?}"))?;
+    let ks = db
+        .keyspace("a", || {
+            let mut o = KeyspaceCreateOptions::default().max_memtable_size(p.memtable).compaction_strategy(Arc::new(fjall::compaction::Leveled::default().with_l0_threshold(2).with_table_target_size(4096)));
+            if p.blob {
+                o = o.with_kv_separation(Some(fjall::KvSeparationOptions::default().separation_threshold(32)));
+            }
+            o
+        })
+        .map_err(|e| format!("{e:?}"))?;
+    let clock = std::sync::atomic::AtomicU64::new(1);
+    let idgen = std::sync::atomic::AtomicU64::new(1);
+    let events: Mutex<Vec<LinEv>> = Mutex::new(vec![]);
+    let err: Mutex<Option<String>> = Mutex::new(None);
+    let private_ok = std::sync::atomic::AtomicUsize::new(0);
+    install_delays(p.delay_seed);
+    let val_of = |id: u64| -> Vec<u8> { format!("{id}:{}", "v".repeat((id % 90) as usize)).into_bytes() };
+    let id_of = |v: Option<&[u8]>| -> u64 { v.map_or(0, |v| String::from_utf8_lossy(v).split(':').next().and_then(|x| x.parse().ok()).unwrap_or(u64::MAX)) };
+    let tables_before = ks.table_count();
+    std::thread::scope(|s| {
+        for t in 0..p.threads {
+            let (ks, clock, idgen, events, err, private_ok) = (ks.clone(), &clock, &idgen, &events, &err, &private_ok);
+            s.spawn(move || {
+                let mut x = p.seed ^ ((t as u64 + 1) * 0x9E37_79B9_7F4A_7C15);
+                let mut rnd = move || {
+                    x ^= x << 13;
+                    x ^= x >> 7;
+                    x ^= x << 17;
+                    x
+                };
+                let mut local = vec![];
+                let mut last_private: Option<Vec<u8>> = None;
+                for i in 0..p.ops_per_thread {
+                    let key = (rnd() % p.hot_keys as u64) as usize;
+                    let kb = format!("hot{key}").into_bytes();
+                    let choice = rnd() % 10;
+                    let call = clock.fetch_add(1, Ordering::SeqCst);
+                    let op = match choice {
+                        0..=3 => {
+                            let id = idgen.fetch_add(1, Ordering::SeqCst);
+                            if let Err(e) = ks.insert(kb.clone(), val_of(id)) {
+                                *err.lock().unwrap() = Some(format!("insert: {e:?}"));
+                                return;
+                            }
+                            LinOp::W(id)
+                        }
+                        4 => {
+                            if let Err(e) = ks.remove(kb.clone()) {
+                                *err.lock().unwrap() = Some(format!("remove: {e:?}"));
+                                return;
+                            }
+                            LinOp::W(0)
+                        }
+                        5..=7 => match ks.get(&kb) {
+                            Ok(v) => LinOp::R(id_of(v.as_deref())),
+                            Err(e) => {
+                                *err.lock().unwrap() = Some(format!("get: {e:?}"));
+                                return;
+                            }
+                        },
+                        _ => match ks.contains_key(&kb) {
+                            Ok(b) => LinOp::C(b),
+                            Err(e) => {
+                                *err.lock().unwrap() = Some(format!("contains_key: {e:?}"));
+                                return;
+                            }
+                        },
+                    };
+                    let ret = clock.fetch_add(1, Ordering::SeqCst);
+                    local.push(LinEv { thread: t, key, call, ret, op });
+                    // private key: no write may be lost
+                    if i % 3 == 0 {
+                        let pk = format!("private{t}").into_bytes();
+                        let pv = format!("{t}-{i}-{}", "p".repeat(i % 70)).into_bytes();
+                        if ks.insert(pk.clone(), pv.clone()).is_err() {
+                            return;
+                        }
+                        match ks.get(&pk) {
+                            Ok(Some(v)) if &*v == pv.as_slice() => {}
+                            other => {
+                                *err.lock().unwrap() = Some(format!("thread {t}: read of own acknowledged write to a private key returned {:?}", other.map(|o| o.map(|v| v.len()))));
+                                return;
+                            }
+                        }
+                        last_private = Some(pv);
+                    }
+                }
+                if let Some(pv) = last_private {
+                    let pk = format!("private{t}").into_bytes();
+                    if ks.get(&pk).ok().flatten().as_deref() == Some(pv.as_slice()) {
+                        private_ok.fetch_add(1, Ordering::SeqCst);
+                    } else {
+                        *err.lock().unwrap() = Some(format!("thread {t}: last acknowledged write to its private key is missing"));
+                    }
+                }
+                events.lock().unwrap().extend(local);
+            });
+        }
+    });
+    fjall::verif::set_point_handler(None);
+    if let Some(e) = err.into_inner().unwrap() {
+        let _ = std::fs::remove_dir_all(dir);
+        return Err(e);
+    }
+    let mut fin = vec![];
+    for k in 0..p.hot_keys {
+        let g = ks.get(format!("hot{k}")).map_err(|e| format!("{e:?}"))?;
+        let id = id_of(g.as_deref());
+        // scans agree with the point read after quiescence
+        let sc = ks.prefix(format!("hot{k}")).next().map(|g| g.into_inner().map(|(_, v)| v.to_vec())).transpose().map_err(|e| format!("{e:?}"))?;
+        if id_of(sc.as_deref()) != id {
+            return Err(format!("after all threads finished, scan and get disagree on key hot{k}"));
+        }
+        fin.push(id);
+    }
+    let flushes = (ks.table_count().max(tables_before) - tables_before) as u64;
+    drop(ks);
+    drop(db);
+    let _ = std::fs::remove_dir_all(dir);
+    Ok(LinHistory { keys: p.hot_keys, events: events.into_inner().unwrap(), fin, flushes })
+}
+
+pub fn shard_c14(tier: &str, seed: u64, shard: u32, cases: u32) -> ShardOut {
+    silence_panics();
+    let mut o = ShardOut::default();
+    let base = scratch_root().join(format!("c14s{shard}"));
+    std::fs::create_dir_all(&base).ok();
+    let mut rng = seed ^ (u64::from(shard) << 38) ^ 0xc14c_14c1;
+    let mut next = move || {
+        rng ^= rng << 13;
+        rng ^= rng >> 7;
+        rng ^= rng << 17;
+        rng
+    };
+    let _ = tier;
+    for _ in 0..cases {
+        let threads = 2 + (next() % 7) as usize;
+        let hot = 2 + (next() % 4) as usize;
+        // keep <= ~24 operations per hot key
+        let ops = ((22 * hot) / threads).clamp(4, 30);
+        let p = LinParams {
+            threads,
+            hot_keys: hot,
+            ops_per_thread: ops,
+            workers: 1 + (next() % 4) as usize,
+            memtable: [256u64, 512, 1024, 4096][(next() % 4) as usize],
+            blob: next() % 4 == 0,
+            delay_seed: next(),
+            seed: next(),
+        };
+        o.evaluations += 1;
+        let t0 = std::time::Instant::now();
+        match run_lin_history(&base.join("db"), &p) {
+            Err(e) => {
+                o.failure = Some(FailureOut { case: json!({"property": "C14", "kind": "run-error", "params": p, "failure": {"msg": e}}), msg: e, step: 0, original_msg: String::new() });
+                break;
+            }
+            Ok(h) => {
+                if t0.elapsed().as_secs() > 60 {
+                    o.inconclusive = Some("a history took more than 60 s (stall?)".into());
+                }
+                *o.stats.entry("operations".into()).or_insert(0) += h.events.len() as u64;
+                *o.stats.entry("flushes_during_histories".into()).or_insert(0) += h.flushes;
+                let hv = serde_json::to_value(&h).unwrap();
+                match check_lin_history(&hv) {
+                    Ok(()) => {
+                        // non-trivial: two ops on the same key overlapping in time, one a write, and a flush happened
+                        let overlap = h.events.iter().any(|a| matches!(a.op, LinOp::W(_)) && h.events.iter().any(|b| b.key == a.key && (b.thread, b.call) != (a.thread, a.call) && b.call < a.ret && a.call < b.ret));
+                        if overlap {
+                            *o.stats.entry("histories_with_overlapping_write".into()).or_insert(0) += 1;
+                        }
+                        if overlap && h.flushes >= 1 {
+                            o.nt_hashes.push(case_hash(&hv.to_string()));
+                            if o.samples.is_empty() {
+                                o.samples.push(json!({"params": p, "first_events": h.events.iter().take(12).collect::<Vec<_>>()}));
+                            }
+                        }
+                    }
+                    Err(e) if e.starts_with("INCONCLUSIVE") => {
+                        *o.stats.entry("inconclusive_histories".into()).or_insert(0) += 1;
+                    }
+                    Err(e) => {
+                        o.failure = Some(FailureOut { case: json!({"property": "C14", "kind": "history", "params": p, "history": hv, "failure": {"msg": e}}), msg: e, step: 0, original_msg: String::new() });
+                        break;
+                    }
+                }
+            }
+        }
+    }
+    let _ = std::fs::remove_dir_all(&base);
+    o
+}
+
+pub fn replay_c14(v: &serde_json::Value, _e: &BTreeSet<String>) -> Option<String> {
+    match v.get("kind").and_then(|k| k.as_str()) {
+        Some("history") => check_lin_history(v.get("history")?).err().filter(|e| !e.starts_with("INCONCLUSIVE")),
+        _ => None,
+    }
+}
+
+pub const C14_RULE: &str = "histories = 2-8 threads on cloned handles, per-thread programs of insert (globally unique value), remove, get, contains_key on 2-5 hot keys plus acknowledged writes to a private key per thread (read back immediately and at the end), memtables of 256 B-4 KiB so rotations, flushes and compactions overlap continuously, 1-4 real worker threads, journal rotation via position scale, seeded delays at the write-path pause points, kv-separated keyspaces in a quarter of the histories; every call and return draws a ticket from one atomic counter; oracle = per-key register linearizability (Wing-Gong search with memoisation) of the time-stamped history including the final value read after all threads joined, scan = point read after quiescence, own acknowledged private writes present; non-trivial = >= 2 operations on the same key overlapping in time, one of them a write, and >= 1 flush completed during the run; distinct by history hash";
+
+// ------------------------------------------------------------------ threaded parts of C07 / C08
+
+/// Optimistic transactions from several threads; the recorded history goes through the exact
+/// strict-serializability checker. Returns (non-trivial?, failure)
+pub fn threaded_c07(dir: &Path, seed: u64) -> Result<(bool, serde_json::Value), (String, serde_json::Value)> {
+    use crate::interp::{Outcome, TxEvent, TxRec};
+    use crate::model::{ReadRes, State};
+    use fjall::{KeyspaceCreateOptions, OptimisticTxDatabase};
+    let _ = std::fs::remove_dir_all(dir);
+    let db = OptimisticTxDatabase::builder(dir).worker_threads(2).open().map_err(|e| (format!("open: {e:?}"), json!(null)))?;
+    let ks = db.keyspace("a", || KeyspaceCreateOptions::default().max_memtable_size(512)).map_err(|e| (format!("{e:?}"), json!(null)))?;
+    let clock = std::sync::atomic::AtomicU64::new(1);
+    let recs: Mutex<Vec<TxRec>> = Mutex::new(vec![]);
+    let err: Mutex<Option<String>> = Mutex::new(None);
+    install_delays(seed ^ 0x77);
+    let threads = 2 + (seed % 3) as usize;
+    let txs_per_thread = 3;
+    std::thread::scope(|s| {
+        for t in 0..threads {
+            let (db, ks, clock, recs, err) = (&db, &ks, &clock, &recs, &err);
+            s.spawn(move || {
+                let mut x = seed ^ ((t as u64 + 1) * 0x9E37_79B9_7F4A_7C15);
+                let mut rnd = move || {
+                    x ^= x << 13;
+                    x ^= x >> 7;
+                    x ^= x << 17;
+                    x
+                };
+                for i in 0..txs_per_thread {
+                    let begin = clock.fetch_add(1, Ordering::SeqCst);
+                    let mut tx = match db.write_tx() {
+                        Ok(t) => t,
+                        Err(e) => {
+                            *err.lock().unwrap() = Some(format!("{e:?}"));
+                            return;
+                        }
+                    };
+                    let mut events = vec![];
+                    let nops = 2 + rnd() % 3;
+                    for _ in 0..nops {
+                        let key = B::L(vec![b'a' + (rnd() % 4) as u8]);
+                        match rnd() % 7 {
+                            0 | 1 => {
+                                let r = Read::Get(key.clone());
+                                match tx.get(ks.inner(), key.mat()) {
+                                    Ok(v) => events.push(TxEvent::Read { ks: "a".into(), r, res: ReadRes::Val(v.map(|v| v.to_vec())) }),
+                                    Err(e) => {
+                                        *err.lock().unwrap() = Some(format!("{e:?}"));
+                                        return;
+                                    }
+                                }
+                            }
+                            2 => {
+                                let r = Read::SizeOf(key.clone());
+                                match tx.size_of(ks.inner(), key.mat()) {
+                                    Ok(v) => events.push(TxEvent::Read { ks: "a".into(), r, res: ReadRes::Size(v) }),
+                                    Err(e) => {
+                                        *err.lock().unwrap() = Some(format!("{e:?}"));
+                                        return;
+                                    }
+                                }
+                            }
+                            3 => {
+                                let r = Read::Len;
+                                match tx.len(ks.inner()) {
+                                    Ok(v) => events.push(TxEvent::Read { ks: "a".into(), r, res: ReadRes::Len(v) }),
+                                    Err(e) => {
+                                        *err.lock().unwrap() = Some(format!("{e:?}"));
+                                        return;
+                                    }
+                                }
+                            }
+                            4 => {
+                                tx.remove(ks.inner(), key.mat());
+                                events.push(TxEvent::Write { ks: "a".into(), w: TxW::Remove(key), ret: None });
+                            }
+                            _ => {
+                                let v = B::L(format!("t{t}i{i}n{}", rnd() % 1000).into_bytes());
+                                tx.insert(ks.inner(), key.mat(), v.mat());
+                                events.push(TxEvent::Write { ks: "a".into(), w: TxW::Insert(key, v), ret: None });
+                            }
+                        }
+                    }
+                    let outcome = match tx.commit() {
+                        Ok(Ok(())) => Outcome::Committed,
+                        Ok(Err(_)) => Outcome::Conflict,
+                        Err(e) => {
+                            *err.lock().unwrap() = Some(format!("{e:?}"));
+                            return;
+                        }
+                    };
+                    let end = clock.fetch_add(1, Ordering::SeqCst);
+                    recs.lock().unwrap().push(TxRec { id: (t * 100 + i) as u64, begin, end, outcome, events });
+                }
+            });
+        }
+    });
+    fjall::verif::set_point_handler(None);
+    if let Some(e) = err.into_inner().unwrap() {
+        return Err((e, json!(null)));
+    }
+    let mut fin = State::new();
+    let mut m = Map::new();
+    for g in ks.inner().iter() {
+        let (k, v) = g.into_inner().map_err(|e| (format!("{e:?}"), json!(null)))?;
+        m.insert(k.to_vec(), v.to_vec());
+    }
+    fin.insert("a".into(), m);
+    let recs = recs.into_inner().unwrap();
+    drop(ks);
+    drop(db);
+    let _ = std::fs::remove_dir_all(dir);
+    let mut base = State::new();
+    base.insert("a".into(), Map::new());
+    let hist = serde_json::to_value(&recs).unwrap();
+    let nt = crate::ser::count_rw_overlaps(&recs) > 0;
+    match crate::ser::check_ser(&base, &recs, &fin, 400_000) {
+        crate::ser::SerResult::Ok(_) | crate::ser::SerResult::Inconclusive => Ok((nt, hist)),
+        crate::ser::SerResult::Fail(msg) => {
+            let flat: Vec<(Vec<u8>, Vec<u8>)> = fin["a"].iter().map(|(k, v)| (k.clone(), v.clone())).collect();
+            Err((format!("threaded history: {msg}"), json!({"recs": hist, "final_a": flat})))
+        }
+    }
+}
+
+/// Single-writer exclusion: read-modify-write transactions from several threads on shared counters
+pub fn threaded_c08(dir: &Path, seed: u64) -> Result<bool, String> {
+    use fjall::{KeyspaceCreateOptions, SingleWriterTxDatabase};
+    let _ = std::fs::remove_dir_all(dir);
+    let db = SingleWriterTxDatabase::builder(dir).worker_threads(2).open().map_err(|e| format!("open: {e:?}"))?;
+    let ks = db.keyspace("a", || KeyspaceCreateOptions::default().max_memtable_size(512)).map_err(|e| format!("{e:?}"))?;
+    install_delays(seed ^ 0x88);
+    let threads = 2 + (seed % 4) as usize;
+    let per = 25usize;
+    let err: Mutex<Option<String>> = Mutex::new(None);
+    let committed: Vec<AtomicUsize> = (0..2).map(|_| AtomicUsize::new(0)).collect();
+    std::thread::scope(|s| {
+        for t in 0..threads {
+            let (db, ks, err, committed) = (&db, &ks, &err, &committed);
+            s.spawn(move || {
+                for i in 0..per {
+                    let c = (t + i) % 2;
+                    let key = format!("ctr{c}");
+                    let res: Result<(), String> = (|| {
+                        if i % 3 == 0 {
+                            // helper (its own transaction)
+                            ks.fetch_update(key.clone(), |v| {
+                                let n: u64 = v.map_or(0, |v| String::from_utf8_lossy(v).parse().unwrap_or(0));
+                                Some((n + 1).to_string().into_bytes().into())
+                            })
+                            .map_err(|e| format!("{e:?}"))?;
+                        } else {
+                            let mut tx = db.write_tx();
+                            let n: u64 = tx.get(ks, &key).map_err(|e| format!("{e:?}"))?.map_or(0, |v| String::from_utf8_lossy(&v).parse().unwrap_or(0));
+                            if i % 5 == 4 {
+                                tx.rollback();
+                                return Ok(());
+                            }
+                            tx.insert(ks, key.clone(), (n + 1).to_string());
+                            tx.commit().map_err(|e| format!("{e:?}"))?;
+                        }
+                        committed[c].fetch_add(1, Ordering::SeqCst);
+                        Ok(())
+                    })();
+                    if let Err(e) = res {
+                        *err.lock().unwrap() = Some(e);
+                        return;
+                    }
+                }
+            });
+        }
+    });
+    fjall::verif::set_point_handler(None);
+    if let Some(e) = err.into_inner().unwrap() {
+        return Err(e);
+    }
+    for c in 0..2 {
+        let got: u64 = ks.get(format!("ctr{c}")).map_err(|e| format!("{e:?}"))?.map_or(0, |v| String::from_utf8_lossy(&v).parse().unwrap_or(0));
+        let want = committed[c].load(Ordering::SeqCst) as u64;
+        if got != want {
+            return Err(format!("single-writer transactions lost an update: counter ctr{c} = {got} after {want} committed increments from {threads} threads"));
+        }
+    }
+    drop(ks);
+    drop(db);
+    let _ = std::fs::remove_dir_all(dir);
+    Ok(threads >= 2)
+}
